@@ -12,7 +12,7 @@ _ASAN = "detect_leaks=1:detect_stack_use_after_return=0:allocator_may_return_nul
 PROP = {
     "subchecks": [
         {"target": "c11_tree_rc", "sub": "tree", "env": {"ASAN_OPTIONS": _ASAN},
-         "quick": {"cases": 30000, "max_size": 24, "workers": 8},
+         "quick": {"cases": 20000, "max_size": 24, "workers": 8},
          "thorough": {"cases": 250000, "max_size": 30, "workers": 8}},
         # one rapidcheck "case" = one slice of the complete enumeration; max_size = max number of nodes,
         # cases = slices per worker; C11_EXH_WORKERS must equal "workers" (same in both tiers)
@@ -21,10 +21,10 @@ PROP = {
          "thorough": {"cases": 32, "max_size": 5, "workers": 8}},
         {"target": "c11_tree_fuzz", "sub": "tree", "env": {"ASAN_OPTIONS": _ASAN},
          "quick": {"runs": 60000, "max_len": 300, "workers": 2},
-         "thorough": {"runs": 2500000, "max_len": 400, "workers": 3}},
+         "thorough": {"runs": 1200000, "max_len": 400, "workers": 3}},
         {"target": "c11_main_rc", "sub": "main_runner", "env": {"ASAN_OPTIONS": _ASAN},
-         "quick": {"cases": 700, "max_size": 12, "workers": 4, "case_alarm": 600},
-         "thorough": {"cases": 12000, "max_size": 12, "workers": 5, "case_alarm": 600}},
+         "quick": {"cases": 500, "max_size": 12, "workers": 4, "case_alarm": 600},
+         "thorough": {"cases": 6000, "max_size": 12, "workers": 5, "case_alarm": 600}},
     ],
     "assumptions": [
         "every call sequence ends with cleanup() on the root followed by destruction of the tree (the statement's 'cleaned up and destroyed'); destroying a started tree WITHOUT cleanup() is outside the domain (a C++ destructor cannot reach the derived hooks of the object being destroyed)",
